@@ -282,6 +282,15 @@ def Impl.flush (x : Impl K C V) : Impl K C V :=
   { x with cds := x.cds.map Cache.flush, eds := x.eds.map Cache.flush
            rds := x.rds.map Cache.flush, sds := x.sds.map Cache.flush }
 
+/-- `lruCache.Snapshot`: `store.Get` on every key, oldest first (the debug accessor mutates recency, under a read lock). -/
+def Cache.snapshot (c : Cache K C V) : Cache K C V :=
+  (c.store.reverse.map (fun e => e.key)).foldl (fun c k => c.get k) c
+
+/-- `XdsCacheImpl.Snapshot`. -/
+def Impl.snapshot (x : Impl K C V) : Impl K C V :=
+  { x with cds := x.cds.map Cache.snapshot, eds := x.eds.map Cache.snapshot
+           rds := x.rds.map Cache.snapshot, sds := x.sds.map Cache.snapshot }
+
 /-- assignment to the global `features.XDSCacheMaxSize` (read again by every `ClearAll`). -/
 def Impl.setMaxSize (x : Impl K C V) (n : Int) : Impl K C V := { x with maxSize := n }
 
